@@ -67,7 +67,9 @@ func (c *compression) compress(req *http.Request, resp *http.Response) bool {
 	// the length of the compressed body is unknown
 	resp.Header.Del(keyContentLength)
 	resp.ContentLength = -1
-	resp.Header.Set(keyContentEncoding, "gzip")
+	// a body the backend has already coded (br, deflate, ...) keeps its label:
+	// gzip is one more coding applied on top of it
+	resp.Header.Add(keyContentEncoding, "gzip")
 	resp.Header.Add(keyVary, keyContentEncoding)
 
 	resp.Body = readers.NewGZipCompressReader(resp.Body)
